@@ -120,6 +120,11 @@ pub fn run_plan(p: &Plan, run: u64) -> Value {
             let l = bytes.len() - 1;
             bytes[l] ^= 0x01
         }
+        // a length field of a genuine handshake datagram enlarged: the signature length byte (64) becomes 65 / 255
+        5 | 6 if bytes.len() > 80 && bytes[0] == 0xff && bytes[bytes.len() - 65] == 64 => {
+            let l = bytes.len() - 65;
+            bytes[l] = if p.edit == 5 { 65 } else { 255 }
+        }
         _ => {}
     }
     sim.capture = false;
@@ -298,10 +303,13 @@ pub fn run(tier: &str, out_path: &str) -> Value {
         for &k in &picked {
             for &offset in &offsets {
                 for src in 0..3u8 {
-                    let edits: &[u8] = if quick { &[0, 1] } else { &[0, 1, 2, 3, 4] };
+                    let edits: &[u8] = if quick { &[0, 1, 5] } else { &[0, 1, 2, 3, 4, 5, 6] };
                     for &edit in edits {
                         if quick && nodes == 3 && (src == 2 && edit == 1) {
                             continue;
+                        }
+                        if edit >= 5 && k >= 12 {
+                            continue; // length-field edits: handshake datagrams only (the first datagrams of the capture)
                         }
                         plans.push(Plan { nodes, k, offset, src, edit, victim_is_dst: true });
                     }
